@@ -423,6 +423,28 @@ pub fn scenarios(thorough: bool) -> Vec<Scn> {
             v.push(Scn { v6: false, pa: 40000, pb: 80, segs, unified: false });
         }
     }
+    v.extend(clock_step_scenarios());
+    v
+}
+
+/// (6) the wall clock is not monotonic: the second (and third) timestamped segment of an endpoint arrives "before" the
+/// first one, or after a jump. The statement leaves the reports open when time runs backwards; what is checked is that
+/// every history is analysed (no panic - arithmetic overflow checks are on) and that the bounds hold after jumps forward.
+pub fn clock_step_scenarios() -> Vec<Scn> {
+    let mut v = vec![];
+    let base = T0 + 10_000_000;
+    for d1 in [-9_000_000i64, -600_001, -600_000, -5000, -25, -1, 0, 1, 24, 25, 1000, 600_000, 600_001, 9_000_000] {
+        for d2 in [-5000i64, -1, 0, 1000] {
+            for (from_a, f0) in [(true, SYN), (false, SYN | ACK), (true, ACK | PSH), (false, ACK | PSH)] {
+                for v6 in [false, true] {
+                    let t1 = (base as i64 + d1) as u64;
+                    let t2 = (t1 as i64 + d2) as u64;
+                    let segs = vec![Seg { from_a, flags: f0, at_ms: base, tsval: 1 << 20 }, Seg { from_a, flags: if f0 & SYN != 0 { f0 } else { ACK }, at_ms: t1, tsval: (1 << 20) + 1000 }, Seg { from_a, flags: ACK, at_ms: t2, tsval: (1 << 20) + 2000 }];
+                    v.push(Scn { v6, pa: 40000, pb: 80, segs, unified: !v6 && d2 == 0 });
+                }
+            }
+        }
+    }
     v
 }
 
@@ -437,7 +459,7 @@ pub fn run(thorough: bool) -> Outcome {
     });
     Outcome {
         report,
-        rule: "histories of 2-4 timestamped segments under the injected clock: every integer rate 1..1500 Hz x intervals x 4 role routes x timestamp origin (incl. wrap through 2^32) x IPv4/IPv6; interval/rate boundaries with follow-up segments; port heuristic over {80,1024,1025,50000}^2; both directions interleaved; backward movement; every single-endpoint history also through calculate_uptime_improved + UptimeTracker (same bounds, grid and decomposition; silent after a rejected pair, frequency kept after an accepted one); distinct = distinct per-packet (client,server) frequency report vectors".into(),
+        rule: "histories of 2-4 timestamped segments under the injected clock: every integer rate 1..1500 Hz x intervals x 4 role routes x timestamp origin (incl. wrap through 2^32) x IPv4/IPv6; interval/rate boundaries with follow-up segments; port heuristic over {80,1024,1025,50000}^2; both directions interleaved; backward movement; wall clock stepping backwards or jumping between the segments (14 x 4 offsets, retransmitted SYN / SYN+ACK and data); every single-endpoint history also through calculate_uptime_improved + UptimeTracker (same bounds, grid and decomposition; silent after a rejected pair, frequency kept after an accepted one); distinct = distinct per-packet (client,server) frequency report vectors".into(),
         exhaustive: true,
         bounds: json!({"scenarios": sc.len(), "max_segments": 4}),
     }
